@@ -98,7 +98,65 @@ func loadProgram(dir string) (*Program, error) {
 			}
 		}
 	}
+	// instantiations of the repo's generic functions are repo code too: they
+	// have no package of their own in go/ssa, so they are found at their call
+	// sites and entered under the instance name (pkg.f[T])
+	for changed := true; changed; {
+		changed = false
+		for _, k := range sortedFuncKeys(P.Funcs) {
+			for _, b := range P.Funcs[k].Blocks {
+				for _, in := range b.Instrs {
+					var callee *ssa.Function
+					switch in := in.(type) {
+					case ssa.CallInstruction:
+						callee = in.Common().StaticCallee()
+					case *ssa.MakeClosure:
+						callee, _ = in.Fn.(*ssa.Function)
+					}
+					if callee == nil || callee.Pkg != nil || callee.Parent() != nil || P.repoPkg(callee) == nil || len(callee.Blocks) == 0 {
+						continue
+					}
+					if _, ok := P.Funcs[funcKey(callee)]; !ok {
+						P.addFunc(callee)
+						changed = true
+					}
+				}
+			}
+		}
+	}
 	return P, nil
+}
+
+// repoPkg: the package of /repo a function belongs to (instantiations of
+// generic functions belong to the package of their origin), or nil.
+func (P *Program) repoPkg(f *ssa.Function) *ssa.Package {
+	for f != nil && f.Parent() != nil {
+		f = f.Parent()
+	}
+	if f == nil {
+		return nil
+	}
+	if f.Pkg != nil {
+		if f.Pkg == P.Bexpr || f.Pkg == P.Grammar {
+			return f.Pkg
+		}
+		return nil
+	}
+	if o := f.Origin(); o != nil && o != f {
+		return P.repoPkg(o)
+	}
+	return nil
+}
+
+// typesPkg: the types.Package whose scope names in contracts of f resolve in.
+func (P *Program) typesPkg(f *ssa.Function) *types.Package {
+	if sp := P.repoPkg(f); sp != nil {
+		return sp.Pkg
+	}
+	if f != nil && f.Pkg != nil {
+		return f.Pkg.Pkg
+	}
+	return P.Bexpr.Pkg
 }
 
 func (P *Program) addFunc(f *ssa.Function) {
@@ -124,6 +182,11 @@ func funcKey(f *ssa.Function) string {
 		return funcKey(f.Parent()) + "$" + name
 	}
 	pkg := ""
+	name := f.Name()
+	if strings.ContainsAny(name, "[], ") {
+		// instantiation f[T1,T2]: keep the key a legal SMT symbol
+		name = strings.NewReplacer("[", "<", "]", ">", ",", "&", " ", "").Replace(name)
+	}
 	if f.Pkg != nil {
 		pkg = f.Pkg.Pkg.Name()
 	} else if f.Object() != nil && f.Object().Pkg() != nil {
@@ -138,11 +201,11 @@ func funcKey(f *ssa.Function) string {
 			if n.Obj().Pkg() != nil {
 				pkg = n.Obj().Pkg().Name()
 			}
-			return pkg + "." + n.Obj().Name() + "." + f.Name()
+			return pkg + "." + n.Obj().Name() + "." + name
 		}
-		return pkg + "." + t.String() + "." + f.Name()
+		return pkg + "." + t.String() + "." + name
 	}
-	return pkg + "." + f.Name()
+	return pkg + "." + name
 }
 
 // calleeKey gives the contract key of a call.
